@@ -121,4 +121,6 @@ pub fn run(ctx: &'static Ctx) {
         let (shape, doc) = &vc[i as usize]; check_doc(ctx, P, "values", i, shape, doc);
     });
     ctx.guard_check("recursive and repeated dependencies explored", ctx.classes_matching(|c| c.contains("self-recursive")) > 0 && ctx.classes_matching(|c| c.contains("repeated-dependency")) > 0 && ctx.classes_matching(|c| c.contains("refers-back-to-primary")) > 0, "self-recursion, a repeated dependency and mutual recursion through the primary type all occurred");
+    crate::hist::histories(ctx, P, "document-histories", "TypedData from JSON and its three digests, a sequence on one fresh thread", crate::hist::td_ops());
+    crate::tdcheck::value_pairs(ctx, P, "value-pairs");
 }
